@@ -584,6 +584,9 @@ def _gram_round_trip(ctx):
             # sqrt(D) @ <vector>
             if e[0] == "@" and len(e[1]) == 2 and "sqrt" in repr(e[1][0]):
                 e = e[1][1]
+            elif e[0] == "*" and len(e[1]) == 2 and any(x[0] == "call" and x[1] == "numpy.sqrt" and "numpy.linalg.eig" in repr(x) for x in e[1]):
+                # element-wise form sqrt(d) * vector == sqrtm(diag(d)) @ vector (the domain of the real sqrt is a separate obligation)
+                e = next(x for x in e[1] if not (x[0] == "call" and x[1] == "numpy.sqrt"))
             else:
                 ctx.ob("R-SIB", fg, key, None, f"element `{show(e)[:60]}` is not sqrt(D) @ vector", n, required=False)
                 continue
@@ -595,6 +598,8 @@ def _gram_round_trip(ctx):
         ctx.ob("R-SIB", fg, key, ok, "conj(M[i, :])" if ok else
                f"the vectors are the {'conjugated ' if r[0] else ''}{r[1]}s of the factor: vectors_to_gram_matrix then returns "
                + ("conj(G)" if r == (0, "row") else "M^+ M (or its conjugate)") + " instead of G for a complex Gram matrix", n)
+    from ..rules import r_domain_clamped
+    r_domain_clamped(ctx, fg)
     # Hermitian eigendecomposition: numpy.linalg.eig returns non-orthogonal eigenvectors inside a degenerate eigenspace, so
     # V D V^+ != G; the unitary diagonalisation of a Hermitian matrix is eigh
     eigs = [n for n in ast.walk(fg.node) if isinstance(n, ast.Call) and (m.resolve_call(fg, n).key or "").startswith(("numpy.linalg.eig", "scipy.linalg.eig"))]
